@@ -37,7 +37,7 @@ STR_KEYWORDS = {"DECAY": "Decay", "ENDDECAY": "Enddecay", "END": "End", "DEFINE"
 PUNCT = {"_SEMICOLON": ";", "_COMMA": ",", "COLON": ":", "EQUAL": "="}
 import os as _os
 
-WORD_BOUND = 20 if _os.environ.get("VERIF_TIER") == "thorough" else 14       # lexeme bound (+1 following character) where no model name is in the context
+WORD_BOUND = 40 if _os.environ.get("VERIF_TIER") == "thorough" else 20       # lexeme bound (+1 following character) where no model name is in the context
 
 
 def in_alpha(ch):
